@@ -79,6 +79,15 @@ class AliasedQuery(Selectable):
             return self.name
         return self.query.get_sql(ctx)
 
+    @builder
+    def replace_table(  # type:ignore[return]
+        self, current_table: "Table" | None, new_table: "Table" | None
+    ) -> "Self":
+        if self.query is not None:
+            self.query = self.query.replace_table(  # type:ignore[attr-defined]
+                current_table, new_table
+            )
+
     def __eq__(self, other: Any) -> bool:
         return isinstance(other, AliasedQuery) and self.name == other.name
 
